@@ -118,15 +118,30 @@ func runC13(e *sim.Env) {
 	e.Shape("net", net.Regime, fmt.Sprint(long))
 	bo := gen.BlockOpts{Mix: gen.FullMix, MaxTx: e.Range(0, 4), OrderSafe: true, Now: now, Strict: genStrict, Miner: net.Actors[0].Addr}
 	tree.Grow(e, gen.GrowOpts{Blocks: e.Range(10, 40), Block: bo, MinerPool: []types.Address{net.Actors[0].Addr, net.Actors[1].Addr, types.VoidAddress}})
+	var legBase, legB *gen.Node
 	if long {
 		// one long empty stretch to reach the distance limit
 		tip := tree.Heaviest()
+		base := tip
 		for i, n := 0, e.Range(150, 230); i < n; i++ {
 			tip = tree.ExtendHeaderOnly(e, tip, gen.BlockOpts{Now: now, Miner: types.VoidAddress, MinGap: true})
+		}
+		if e.Chance(1, 2) {
+			// and a second, shorter one from the same block: a pair of indices
+			// whose two legs are each moderate but together beyond the limit
+			legBase, legB = base, base
+			for i, n := 0, e.Range(100, 140); i < n; i++ {
+				legB = tree.ExtendHeaderOnly(e, legB, gen.BlockOpts{Now: now, Miner: types.VoidAddress, MinGap: true})
+			}
+			e.Shape("two-legs")
 		}
 	}
 	dominant := tree.MakeDominant(e, bo)
 	plan := makePlan(e, tree)
+	if legB != nil {
+		// the shorter leg first, so that it has been the best chain once
+		plan = append([][]*gen.Node{legB.PathFromGenesis()[1:]}, plan...)
+	}
 	plan = append(plan, dominant.PathFromGenesis()[1:])
 	for _, batch := range plan {
 		if len(batch) > 0 {
@@ -153,6 +168,12 @@ func runC13(e *sim.Env) {
 		to := appliedNodes[e.Intn(len(appliedNodes))]
 		if e.Chance(1, 3) {
 			to = tip
+		}
+		if legB != nil && applied[legB.ID] && legBase.IsAncestorOf(tip) && e.Chance(1, 2) {
+			// from deep in the shorter leg to 60-144 blocks up the other one
+			from = legB.Ancestor(legB.Height - uint64(e.Range(0, 40)))
+			to = tip.Ancestor(legBase.Height + uint64(e.Range(60, 144)))
+			e.Probe("rebase_between_two_long_legs")
 		}
 		if from.Height+1 < net.Allow() {
 			continue
@@ -495,7 +516,7 @@ func hasEphemeral(t types.V2Transaction) bool {
 func init() {
 	register(&Prop{
 		ID: "C13", Run: runC13, Quick: 700, Thorough: 20000, Level: "exploration",
-		Rule:        "one run = fork tree handed to the node (1 run in 10 with a 150-230 block stretch), then 4-14 rebases of a v2 transaction set valid at a drawn applied index `from` (confirmed/ephemeral/mixed parents, contract revisions, renewals, storage proofs, expirations, transactions that get confirmed on the way) to a drawn index `to` on the same or another branch, or with a corrupted basis / proof bit / leaf index; then two rounds of a drawn dependency DAG pooled on the node and V2TransactionSet asked for its last transaction (tip basis, stale basis, or right after a block confirmed some of its parents and before any other pool query); oracles: error iff required, same transactions minus confirmed ones in order, every element == reference ledger at `to`, ephemeral->confirmed replacement, returned sets in dependency order with basis == tip and accepted by a fresh pool; distinct = abstract trace (revert/apply length buckets, corruption, error); non-trivial = a rebase across a fork or a DAG query",
+		Rule:        "one run = fork tree handed to the node (1 run in 10 with a 150-230 block stretch, half of those with a second stretch of 100-140 blocks from the same block that has been the best chain first, and rebases from deep in it to 60-144 blocks up the other one: two moderate legs, together beyond the limit), then 4-14 rebases of a v2 transaction set valid at a drawn applied index `from` (confirmed/ephemeral/mixed parents, contract revisions, renewals, storage proofs, expirations, transactions that get confirmed on the way) to a drawn index `to` on the same or another branch, or with a corrupted basis / proof bit / leaf index; then two rounds of a drawn dependency DAG pooled on the node and V2TransactionSet asked for its last transaction (tip basis, stale basis, or right after a block confirmed some of its parents and before any other pool query); oracles: error iff required, same transactions minus confirmed ones in order, every element == reference ledger at `to`, ephemeral->confirmed replacement, returned sets in dependency order with basis == tip and accepted by a fresh pool; distinct = abstract trace (revert/apply length buckets, corruption, error); non-trivial = a rebase across a fork or a DAG query",
 		Real:        []string{"chain.Manager (UpdateV2TransactionSet, V2TransactionSet, AddV2PoolTransactions)", "chain.DBStore"},
 		Stub:        []string{"disk: simdisk.DB"},
 		Assumptions: []string{"distances up to 100 must be supported and distances from 200 must be rejected; in between only absence of panics and correctness on success are demanded"},
